@@ -20,11 +20,9 @@ def load_checks():
 
 
 CHECKS = load_checks()
-# checks still being built are not registered yet
-for _pid in ("C04", "C16"):
-    CHECKS.pop(_pid, None)
 
-NOT_YET = {"C04": "check under construction in this round (outcome contract spec/Toolchain.tla + Trace_Outcomes.tla exist; findings being saturated)", "C16": "check under construction in this round (outcome contract spec/Toolchain.tla + Trace_Outcomes.tla exist; findings being saturated)"}
+NOT_YET = {}
+NOT_YET_OLD = {"C04": "check under construction in this round (outcome contract spec/Toolchain.tla + Trace_Outcomes.tla exist; findings being saturated)", "C16": "check under construction in this round (outcome contract spec/Toolchain.tla + Trace_Outcomes.tla exist; findings being saturated)"}
 
 def main():
     props = [json.loads(l) for l in open(os.path.join(VERIF, "properties.jsonl"))]
